@@ -437,14 +437,13 @@ def ob_d(ob):
 
 
 # ---- shared obligation: translation behaviour of the dipole (shift by total charge times t, none for neutral molecules) follows from the dipole being the one implied by charges and density ----
-from . import C14 as _C14_mod  # noqa: E402
-
-
-@obligation(PID, "g", title="[shared with C14.b] " + [e for e in __import__("engine.ob", fromlist=["REGISTRY"]).REGISTRY["C14"] if e[1] is _C14_mod.ob_b][0][3])
+@obligation(PID, "g", title='[shared with C14.b] atomic charges follow from the density (sum = sum Z_val - tr P) and the dipole is the one implied by those charges and the density: point charges + sp hybridisation term; shifts by (total charge)*t under translation; RHF and UHF')
 def ob_g_shared(ob):
     """translation behaviour of the dipole (shift by total charge times t, none for neutral molecules) follows from the dipole being the one implied by charges and density"""
+    from . import C14 as _m  # imported lazily: the harness modules share obligations in both directions
+
     ob.note("this obligation is the one registered as C14.b; it is also decided here because translation behaviour of the dipole (shift by total charge times t, none for neutral molecules) follows from the dipole being the one implied by charges and density")
-    _C14_mod.ob_b(ob)
+    _m.ob_b(ob)
 
 
 def replay_rotate_core(v):
